@@ -255,6 +255,8 @@ class ConstEval:
                 return _PURE[fn.id](*args, **kw)
             if r and r[0] == 'extern' and r[1] == 'struct' and r[2] in ('pack', 'calcsize'):
                 return getattr(struct, r[2])(*[ev(a) for a in e.args])
+            if r and r[0] == 'extern' and r[1] == 'collections' and r[2] == 'OrderedDict' and len(e.args) <= 1:
+                return dict(*[ev(a) for a in e.args])
             raise NotConst('call of %s' % fn.id)
         if isinstance(fn, ast.Attribute):
             q = ast.unparse(fn)
